@@ -30,8 +30,8 @@ STUBS = [
 FLOAT_MODE = "R-mode exact reals (+ one QF_FP query)"
 BOUNDS = {"quick": dict(durations=[1, 2, 3, 4, 5, 6], slice_args="all integers (symbolic)", phase_samples="2..4"),
           "thorough": dict(durations=list(range(1, 10)), slice_args="all integers (symbolic)", phase_samples="2..6")}
-OUTSIDE = ["InterpolatedWaveform / KaiserWaveform sample values (scipy, Bessel)", "BlackmanWaveform.from_max_val / KaiserWaveform.from_max_val "
-           "duration search (window sums are transcendental)", "hash"]
+OUTSIDE = ["InterpolatedWaveform / KaiserWaveform sample values (scipy, Bessel)", "KaiserWaveform.from_max_val", "BlackmanWaveform.from_max_val "
+           "outside window lengths 10..150 ns", "hash"]
 
 
 def setup():
@@ -254,6 +254,38 @@ def h_pulse(shape):
     return h
 
 
+def h_blackman_max(shape):
+    """BlackmanWaveform.from_max_val: never exceeds max_val, integrates to the area, and one nanosecond shorter would
+    exceed it (or, documented odd/even irregularity, would not come closer).  The window length is concretised by
+    forking; np.blackman runs concretely for each length."""
+    from pulser.waveforms import BlackmanWaveform
+
+    max_val = shape["max_val"]
+
+    def h(inp):
+        area = inp.real("area", shape["lo"], shape["hi"])
+        sign = -1.0 if shape.get("neg") else 1.0
+        wf = BlackmanWaveform.from_max_val(sign * max_val, sign * area)
+        s = samples_of(wf)
+        D = len(s)  # concrete on this path (the window length was concretised)
+        obs = [("k3:n_samples", wf.duration == D)]
+        peak = smax([sign * x for x in s])
+        obs.append(("k3:never_exceeds_max_val", peak <= max_val + 1e-9))
+        tot = s[0]
+        for x in s[1:]:
+            tot = tot + x
+        obs.append(("k3:area_preserved", abs(tot * 1e-3 - sign * area) <= 1e-9))
+        obs.append(("k3:sign", AND(*[sign * x >= 0 for x in s])))
+        # one nanosecond shorter
+        if D >= 4:
+            w = np.clip(np.blackman(D - 1), 0, np.inf)
+            shorter_peak = area * 1e3 / float(np.sum(w)) * float(np.max(w))
+            obs.append(("k3:one_ns_shorter_would_exceed_or_not_be_closer", OR(shorter_peak > max_val - 1e-9, peak >= shorter_peak - 1e-9)))
+        return obs
+
+    return h
+
+
 def h_phase_fp(shape):
     """phase = x % 2*pi lies in [0, 2*pi) for every binary64 x in (-2*pi, 0).
     Symbolic side: QF_FP model of Python's float modulo on that interval;
@@ -298,6 +330,14 @@ def kernels(tier):
         for n in range(2, 5 if quick else 7):
             ks.append(("pulse", dict(what="arb", kind=kind, n=n)))
     ks.append(("phase_fp", dict()))
+    # from_max_val: the area range is cut into slices (one shape each, ~4 window lengths per slice) so that the
+    # slices run in parallel; window lengths 12..45 ns (quick) / 12..120 ns (thorough)
+    max_val = 5.0
+    step = 0.008
+    lo0, n_slices = 0.02, (9 if quick else 28)
+    for i in range(n_slices):
+        for neg in ((False,) if (quick and i % 2) else (False, True)):
+            ks.append(("blackman_max", dict(max_val=max_val, lo=lo0 + i * step, hi=lo0 + (i + 1) * step, neg=neg)))
     return ks
 
 
@@ -310,4 +350,6 @@ def harness(kernel, shape):
         return h_pulse(shape)
     if kernel == "phase_fp":
         return h_phase_fp(shape)
+    if kernel == "blackman_max":
+        return h_blackman_max(shape)
     raise ValueError(kernel)
